@@ -458,3 +458,209 @@ def make_cstate_rule(rule_id):
                     _, status, f, fn, construct, line, detail = row
                     getattr(r, status)(f, fn, construct, line, detail)
     return run
+
+
+# --------------------------------------------------------------------------------------------- C05/C06: helper guards in every unit
+def helper_unit(unit, extra):
+    """Worker: (C05) the square root of a difference that rounding can make negative is guarded in qac_apply;
+    (C06) the magnetic kernel hands mag_sld the q components exactly as fetched."""
+    from .. import cfront
+    from ..nf import c_callee, c_text, c_strip
+    from ..ckernel import Kernel, kids, norm
+    out = []
+    KI = "sasmodels/kernel_iq.c"
+    f = unit.functions.get("qac_apply")
+    if f is not None and unit.body(f) is not None:
+        body = unit.body(f)
+        ff, ll = unit.where(f)
+        sq = []
+        def rec(node, anc):
+            for ch in kids(node):
+                if ch.get("kind") == "CallExpr" and c_callee(ch) == "sqrt":
+                    sq.append((ch, list(anc)))
+                rec(ch, anc + [ch])
+        rec(body, [])
+        if not sq:
+            out.append(("R-C05-guard", "violation", ff, "%s:qac_apply" % unit.name, "sqrt of the in-plane remainder", ll,
+                        "qab = sqrt(|q|^2 - qc^2) not found"))
+        for call, anc in sq:
+            arg = norm(c_text(kids(call)[1]))
+            guarded = False
+            for a in anc:
+                if a.get("kind") == "ConditionalOperator" or a.get("kind") == "IfStmt":
+                    cnd = norm(c_text(kids(a)[0]))
+                    if cnd in ("%s>0" % arg, "%s>0.0" % arg, "%s>=0" % arg, "%s>=0.0" % arg):
+                        guarded = True
+            inner = c_strip(kids(call)[1])
+            if inner.get("kind") == "CallExpr" and c_callee(inner) in ("fmax", "fabs"):
+                guarded = True
+            f2, l2 = unit.where(call)
+            out.append(("R-C05-guard", "ok" if guarded else "violation", f2, "%s:qac_apply" % unit.name, "sqrt(%s)" % arg[:50], l2,
+                        "taken only when the argument is positive" if guarded else
+                        "|q|^2 - qc^2 can round to a small negative number when the particle axis lies along q (theta = 90): the "
+                        "unguarded sqrt makes the in-plane component, and the intensity, NaN"))
+    try:
+        k = Kernel(unit, "Imagnetic")
+    except AnalysisError:
+        return out
+    calls = [n for n in cfront.walk(k.body) if n.get("kind") == "CallExpr" and c_callee(n) == "mag_sld"]
+    fn = "%s:Imagnetic" % unit.name
+    for c in calls:
+        a = [norm(c_text(x)) for x in kids(c)[1:]]
+        qn = a[1:3]
+        writes = []
+        for n in cfront.walk(k.body):
+            if n.get("kind") in ("BinaryOperator", "CompoundAssignOperator") and (n.get("opcode") == "=" or n.get("kind") == "CompoundAssignOperator"):
+                lhs = norm(c_text(kids(n)[0]))
+                if lhs in qn:
+                    rhs = c_strip(kids(n)[1])
+                    from_q = rhs.get("kind") == "ArraySubscriptExpr" and norm(c_text(kids(rhs)[0])) == k.p_q
+                    writes.append((lhs, from_q, n))
+        bad = [w for w in writes if not w[1]]
+        f2, l2 = unit.where(c)
+        ok = len(qn) == 2 and not bad and len([w for w in writes if w[1]]) >= 2
+        out.append(("R-C06-qdir", "ok" if ok else "violation", f2, fn, "mag_sld(xs, %s, ...)" % ", ".join(qn), l2,
+                    "the q direction given to mag_sld is the detector point as fetched from the q vector" if ok else
+                    "%s is overwritten before mag_sld uses it (%s): the component of M perpendicular to q is taken for the wrong direction"
+                    % (", ".join(sorted({w[0] for w in bad})) or "q", "; ".join(c_text(w[2])[:50] for w in bad))))
+    return out
+
+
+_helper_cache = None
+
+
+def make_helper_rule(rule_id):
+    def run(r):
+        global _helper_cache
+        if _helper_cache is None:
+            from .. import cfront
+            _helper_cache = cfront.map_units("sa.rules.extra3:helper_unit")
+        for unit, rows in sorted(_helper_cache.items()):
+            for row in rows:
+                if row[0] == rule_id:
+                    _, status, f, fn, construct, line, detail = row
+                    getattr(r, status)(f, fn, construct, line, detail)
+    return run
+
+
+# --------------------------------------------------------------------------------------------- C13: scale-free limits
+def rule_c13_limits(r):
+    """The interfaces truncate a parameter's dispersity mesh at its limits.  A finite non-zero limit on a parameter with a
+    length unit is an absolute length, so the truncated mesh - and with it the average - does not scale with lambda."""
+    import math
+    from .. import tables
+    from .c13 import in_scope, unit_degree
+    n = 0
+    for mid, md in sorted(tables.models().items()):
+        ok_scope, _ = in_scope(md)
+        if not ok_scope:
+            continue
+        for p in md.pars:
+            deg = unit_degree(p["units"])
+            if deg in (None, "out-of-scope") or p["type"] == "orientation":
+                continue
+            L, S = deg if isinstance(deg, tuple) else (0, 0)
+            if L == 0 and S == 0:
+                continue
+            lim = p["limits"]
+            if not (isinstance(lim, (list, tuple)) and len(lim) == 2):
+                continue
+            n += 1
+            bad = [x for x in lim if x != 0 and not (isinstance(x, float) and math.isinf(x))]
+            r.check(not bad, md.relpath, "parameters", "%s [%s] limits %s" % (p["name"], p["units"], list(lim)), md.lineno.get("parameters", 0),
+                    "limits 0 / +-inf are scale free" if not bad else
+                    "a dispersity mesh on %s is cut at %s %s whatever the scale of the particle: the average over the mesh, and with it "
+                    "I, the volumes and R_eff, does not follow the scaling law" % (p["name"], bad[0], p["units"]))
+    if n < 150:
+        raise AnalysisError("dimensional parameters of the in-scope models not found (%d)" % n)
+
+
+# --------------------------------------------------------------------------------------------- C11: python model functions are pure
+def _uncovered_return(fn, X, alloc):
+    """Reason text when some `return` can hand back X before every element was written, else None.
+    Accepted coverage (enumerated from the model files): X[:] = / X[...] = , or the pair X[m] = and X[~m] = for one mask m,
+    as statements that are not under an `if` (a `with` block is transparent)."""
+    def flat(stmts):
+        for st in stmts:
+            if isinstance(st, (ast.With, ast.AsyncWith)):
+                for x in flat(st.body):
+                    yield x
+            else:
+                yield st
+    masks_pos, masks_neg, full = set(), set(), False
+    seen_alloc = False
+    for st in flat(fn.body):
+        if st is alloc:
+            seen_alloc = True
+            continue
+        if not seen_alloc:
+            if any(isinstance(x, ast.Return) for x in ast.walk(st)) and X in pf.names_in(st):
+                pass
+            continue
+        if isinstance(st, ast.Assign) and isinstance(st.targets[0], ast.Subscript) and pf.unparse(st.targets[0].value) == X:
+            sl = st.targets[0].slice
+            if isinstance(sl, ast.Slice) and sl.lower is None and sl.upper is None:
+                full = True
+            elif isinstance(sl, ast.Constant) and sl.value is Ellipsis:
+                full = True
+            elif isinstance(sl, ast.UnaryOp) and isinstance(sl.op, ast.Invert):
+                masks_neg.add(pf.unparse(sl.operand))
+            else:
+                masks_pos.add(pf.unparse(sl))
+        covered = full or bool(masks_pos & masks_neg)
+        rets = [x for x in ast.walk(st) if isinstance(x, ast.Return) and x.value is not None and X in pf.names_in(x.value)]
+        if rets and not covered:
+            return "line %d returns %s before every element has been written" % (rets[0].lineno, X)
+    return None
+
+
+def rule_c11_pymodel(r):
+    """The python functions of the model files (Iq, Iqxy, form_volume, ...) are evaluated by PyKernel on every request:
+    they must not hand back uninitialised memory, keep state, or write their arguments."""
+    from .. import tables
+    n = 0
+    for mid, md in sorted(tables.models().items()):
+        for fname, fn in sorted(md.functions.items()):
+            if fname in ("random", "profile") or fname.startswith("test"):
+                continue
+            n += 1
+            bad = []
+            params = {a.arg for a in fn.args.args}
+            for node in ast.walk(fn):
+                if isinstance(node, ast.Assign) and isinstance(node.value, ast.Call) and len(node.targets) == 1 and isinstance(node.targets[0], ast.Name):
+                    nm = pf.call_name(node.value) or ""
+                    if nm.split(".")[-1] in ("empty", "empty_like", "ndarray") and nm.split(".")[0] in ("np", "numpy", "empty", "empty_like", "ndarray"):
+                        X = node.targets[0].id
+                        why = _uncovered_return(fn, X, node)
+                        if why:
+                            bad.append((node, "%s(...) allocates uninitialised memory and %s: the call echoes whatever an earlier "
+                                              "evaluation left on the heap" % (nm, why)))
+                elif isinstance(node, ast.Call):
+                    nm = pf.call_name(node) or ""
+                    par = None
+                    if nm.split(".")[-1] in ("empty", "empty_like", "ndarray") and nm.split(".")[0] in ("np", "numpy", "empty", "empty_like", "ndarray"):
+                        # an allocation that is not simply bound to a name cannot be followed
+                        holders = [x for x in ast.walk(fn) if isinstance(x, ast.Assign) and x.value is node]
+                        if not holders:
+                            bad.append((node, "%s(...) allocates uninitialised memory that is used without being bound to a name" % nm))
+                elif isinstance(node, (ast.Global, ast.Nonlocal)):
+                    bad.append((node, "`%s %s` keeps state between evaluations" % (type(node).__name__.lower(), ", ".join(node.names))))
+                elif isinstance(node, (ast.Assign, ast.AugAssign)):
+                    tg = node.targets if isinstance(node, ast.Assign) else [node.target]
+                    for t in tg:
+                        root = t
+                        while isinstance(root, (ast.Subscript, ast.Attribute)):
+                            root = root.value
+                        if isinstance(t, (ast.Subscript, ast.Attribute)) and isinstance(root, ast.Name):
+                            if root.id == fn.name or (isinstance(t, ast.Attribute) and root.id not in params
+                                                      and root.id not in {x.id for x in ast.walk(fn) if isinstance(x, ast.Name) and isinstance(x.ctx, ast.Store)}):
+                                bad.append((node, "write to `%s`: state outside the call" % pf.unparse(t)))
+            for d in fn.args.defaults + fn.args.kw_defaults:
+                if isinstance(d, (ast.List, ast.Dict, ast.Set)):
+                    bad.append((d, "mutable default argument keeps state between calls"))
+            for node, why in bad:
+                r.violation(md.relpath, fname, pf.unparse(node)[:70], getattr(node, "lineno", fn.lineno), why)
+            if not bad:
+                r.ok(md.relpath, fname, "no uninitialised allocation, no state kept", fn.lineno)
+    if n < 20:
+        raise AnalysisError("python functions of the model files not found (%d)" % n)
